@@ -45,7 +45,7 @@ REQUIRED_PROBES = ['delimiter_straddles_recv', 'size_met_at_recv_edge', 'timeout
                    'sender_threads_interleaved_on_one_socket']
 su = None   # boltons.socketutils, set by setup()
 
-DELIMS = [b'|', b'\n', b'\r\n', b'||', b'\r\n\r\n', b'ab', b'aba', b'|a|', b'\r', b'a|']
+DELIMS = [b'|', b'\n', b'\r\n', b'||', b'\r\n\r\n', b'ab', b'aba', b'|a|', b'\r', b'a|', b'%', b'%s|', b'a%\n', b'{}', b'\\']
 
 
 def setup(root):
@@ -67,8 +67,10 @@ def _gen_stream(rng, tier):
         n = rng.choice([1000, 1100, 2500, 5000, 32767, 32768, 32769, 33000, 65536, 70000])
     else:
         n = rng.choice([0, 1, 2, 3, 5, 8, 13, 21, 40, 80, 200]) if rng.random() < 0.5 else rng.randint(0, 60)
-    if style < 0.6:
+    if style < 0.5:
         alpha = b'ab|\r\n'
+    elif style < 0.6:
+        alpha = b'ab|\r\n%s%{}\\'        # bytes that mean something to %-formatting, str.format, escapes
     elif style < 0.8:
         alpha = b'ab||\r\n\r\n|||aaab'
     else:
@@ -188,8 +190,13 @@ def _gen_send_threads(rng, tier):
             else:
                 ops.append(['flush'])
         threads.append(ops)
-    return {'mode': 'send-threads', 'send_split': _gen_split(rng), 'threads': threads,
+    case = {'mode': 'send-threads', 'send_split': _gen_split(rng), 'threads': threads,
             'sched': {'kind': 'random', 'seed': rng.getrandbits(32), 'p': rng.choice([0.05, 0.2, 0.5])}}
+    if rng.random() < 0.35:
+        # the threads share a NetstringSocket: every write_ns() frame must reach the wire whole
+        case['netstring'] = True
+        case['threads'] = [[['write_ns', op[1]] for op in t if len(op) > 1] or [['write_ns', '58']] for t in threads]
+    return case
 
 
 def gen_case(rng, tier):
@@ -535,8 +542,13 @@ def _run_send_threads(case):
     sock = SimSocket(clock, log, sndbuf=1 << 30, drains=[], send_split=case['send_split'], call_cap=40 * (total + 10))
     real_rlock = su.RLock
     su.RLock = lambda *a, **k: threadsim.SimRLock(sched)
+    ns = None
     try:
-        bs = su.BufferedSocket(_YieldingSock(sock, sched), timeout=None)
+        if case.get('netstring'):
+            ns = su.NetstringSocket(_YieldingSock(sock, sched), timeout=None)
+            bs = ns.bsock
+        else:
+            bs = su.BufferedSocket(_YieldingSock(sock, sched), timeout=None)
     finally:
         su.RLock = real_rlock
     errors = []
@@ -548,6 +560,8 @@ def _run_send_threads(case):
                 try:
                     if op[0] == 'flush':
                         bs.flush()
+                    elif op[0] == 'write_ns':
+                        ns.write_ns(bytes.fromhex(op[1]))
                     else:
                         getattr(bs, op[0])(bytes.fromhex(op[1]))
                 except threadsim.SimAbort:
@@ -589,6 +603,8 @@ def _run_send_threads(case):
         sock._pump()
         wire = bytes(sock.peer_got) + bytes(sock.kbuf) + bytes(bs.getsendbuffer())
         chunks = [[bytes.fromhex(op[1]) for op in t if len(op) > 1] for t in case['threads']]
+        if ns is not None:
+            chunks = [[b'%d:' % len(p) + p + b',' for p in t] for t in chunks]      # whole frames
         ok = any(b''.join(order) == wire for order in _merges(chunks))
         if not ok:
             out.fail('send-bytes-not-conserved', 0, 'sender threads submitted %r; the peer got %r: not the chunks of every thread, whole, '
